@@ -207,8 +207,18 @@ impl<M: Math, A: MassMatrixAdaptStrategy<M>> AdaptStrategy<M> for GlobalStrategy
             if did_change & self.has_initial_mass_matrix {
                 self.has_initial_mass_matrix = false;
                 let position = math.box_array(state.point().position());
-                self.step_size
-                    .init(math, options, hamiltonian, &position, rng)?;
+                match self
+                    .step_size
+                    .init(math, options, hamiltonian, &position, rng)
+                {
+                    Ok(()) => {}
+                    // The current point could not be evaluated again (recoverable error of
+                    // the density): skip the search and keep the current step size adaptation.
+                    Err(NutsError::BadInitGrad(_)) => {
+                        self.step_size.update_stepsize(rng, hamiltonian, false)
+                    }
+                    Err(err) => return Err(err),
+                }
             } else {
                 self.step_size.update_stepsize(rng, hamiltonian, false)
             }
